@@ -484,7 +484,17 @@ namespace Pistache::Http
             }
 
             if (size == 0)
+            {
+                // the last chunk is followed by the CRLF that ends the message
+                // (trailers are not supported): the message is complete only
+                // once that CRLF has been received
+                if (cursor.remaining() < 2)
+                    return Incomplete;
+                if (!cursor.eol())
+                    throw std::runtime_error("Expected CRLF after the last chunk");
+                cursor.advance(2);
                 return Final;
+            }
 
             StreamCursor::Token chunkData(cursor);
             const ssize_t available = cursor.remaining();
